@@ -23,6 +23,7 @@ ASSUMPTIONS = ['simulated kernel calibrated against real psutil/subprocess',
                'agreement is demanded only at quiescent points (after one periodic check), never in between',
                'histories that stall the loop are truncated there and left to C05']
 BUDGET = {'quick': 240, 'thorough': 1500}
+CASE_TIMEOUT = 180          # a LIVE history (real daemon, real grace periods) takes 20-60 s of wall clock
 CAP = 60
 
 KINDS = ['incr', 'decr', 'setnp', 'restart', 'reload', 'reloadseq', 'reloadterm', 'stop', 'start', 'kill', 'signal',
